@@ -6,6 +6,7 @@ Shapes (anything else is left untouched):
   S3  for j in (LO..HI).rev() { BODY }             (countdown while)
   S4  for v in IDENT { BODY }                      (IDENT a bare identifier: `&mut [T]` parameter);  S4b  for v in &PATH / &mut PATH { BODY }
   S5  (LO..HI).for_each(|i| BODY);
+  S8  for (P, Q) in (LO..HI).enumerate() { BODY }   (P counts from 0, Q = LO + P)
   S7  for (P, Q) in (A..B).zip(C..D) { BODY }      (two counters advancing together over the shorter range)
   R7  (x, y) = (e1, e2);   /  let (x, y): (T, U);
 
@@ -415,7 +416,29 @@ def apply(body, fired):
                             lo_t = body[rng_toks[0].start:rng_toks[d].start].strip() if d > 0 else '0'
                             hi_t = body[rng_toks[d + 2].start:rng_toks[-1].end].strip()
                             s3 = (lo_t, hi_t)
-                if s3 is not None:
+                s8 = None
+                if names and len(names) == 2 and len(itc) >= 7 and itc[0].text == '(':
+                    c0 = match_close(itc, 0)
+                    tail = ''.join(x.text for x in itc[c0 + 1:])
+                    if tail == '.enumerate()':
+                        rng_toks = itc[1:c0]
+                        d = None
+                        dep = 0
+                        for q in range(len(rng_toks) - 1):
+                            if rng_toks[q].kind == 'p' and rng_toks[q].text in OPEN: dep += 1
+                            elif rng_toks[q].kind == 'p' and rng_toks[q].text in CLOSE: dep -= 1
+                            elif dep == 0 and rng_toks[q].text == '.' and rng_toks[q + 1].text == '.':
+                                d = q; break
+                        if d is not None and d > 0 and d + 2 < len(rng_toks) and rng_toks[d + 2].text != '=':
+                            s8 = (body[rng_toks[0].start:rng_toks[d].start].strip(), body[rng_toks[d + 2].start:rng_toks[-1].end].strip())
+                if s8 is not None and not re.search(r'\b(continue|break)\b', loop_body):
+                    # S8: for (P, Q) in (LO..HI).enumerate() { BODY }: P counts from 0, Q runs over the range
+                    ctx.k += 1
+                    K = ctx.k
+                    rep = (f';{{\nlet lo__{K}: usize = {s8[0]};\nlet n__{K}: usize = vsub_sat({s8[1]}, lo__{K});\nlet mut i__{K}: usize = 0;\n'
+                           f'while i__{K} < n__{K}\n{{\nlet {names[0]}: usize = i__{K};\nlet {names[1]}: usize = lo__{K} + i__{K};\n{loop_body.strip()}\ni__{K} += 1;\n}}\n}}')
+                    fired.add('R4')
+                elif s3 is not None:
                     ctx.k += 1
                     K = ctx.k
                     j_ = names[0]
